@@ -47,6 +47,55 @@ theorem cursor_position_shape :
       "select { case <-timeout.C: log.Warn(\"CursorPosition timed out\") atomicStore(&vx.reqCursorPos, false) return -1, -1 case pos := <-vx.chCursorPos: return pos[0] - 1, pos[1] - 1 }"] := by
   decide +kernel
 
+/-- `handleSequence` takes the request flag in one atomic step (compare-and-swap; F103 repaired:
+with a separate load and store the store could withdraw a request raised in between), and nothing
+else in vaxis.go touches the flag but `CursorPosition` (raise; lower on its own time-out).  This
+is what entitles the LTS to treat "flag seen and lowered" as part of the `.input` label. -/
+theorem cpr_take_atomic :
+    Gen.Caps.cprCond = "atomic.CompareAndSwapInt32(&vx.reqCursorPos, 1, 0)" ∧
+    Gen.Caps.reqFlagOps = [
+      ("handleSequence", "atomic.CompareAndSwapInt32(&vx.reqCursorPos, 1, 0)"),
+      ("CursorPosition", "atomicStore(&vx.reqCursorPos, true)"),
+      ("CursorPosition", "atomicStore(&vx.reqCursorPos, false)")] := by decide +kernel
+
+/-- In the LTS a standing cursor-position request is withdrawn only by the goroutine accepting a
+sequence (the report that answers it) or by the requester's own time-out — never by a later step
+of the goroutine (the hand-off), whatever was called in between. -/
+theorem flag_lowered_only_by (p : Params) (s s' : Sys) (l : Label)
+    (h : next p s l = some (.ok s')) (hup : s.vs.reqCursorPos = true) (hdown : s'.vs.reqCursorPos = false) :
+    (∃ q, l = .input q) ∨ l = .cursorTimeout := by
+  cases l with
+  | input q => exact Or.inl ⟨q, rfl⟩
+  | cursorTimeout => exact Or.inr rfl
+  | step =>
+    exfalso
+    simp only [next] at h
+    split at h
+    · simp at h
+    · rename_i e rest _
+      cases hs : stepEffect p s e rest with
+      | none => simp [hs] at h
+      | some t =>
+        simp [hs] at h
+        have := stepEffect_vs p s t e rest hs
+        rw [← h, this, hup] at hdown
+        cases hdown
+  | _ =>
+    exfalso
+    simp only [next] at h
+    (repeat' split at h) <;> simp at h <;> (try (subst h; simp_all))
+
+/-- The "recall" schedule (replayed on the real code through the yield point): the first call
+times out after the goroutine has taken the flag, a second call raises it again, the goroutine
+hands the first answer over (the second call receives it), and the second report is still
+consumed as a reply — no key event, the answer parked for the next call to drop. -/
+example :
+    (match run { qcap := 4, kinds := Kinds.ofGen, b64 := fun _ => none } {}
+        [.cursorDrain, .cursorCall, .input (.csi [] [[3], [7]] (ch 'R')), .cursorTimeout, .cursorDrain, .cursorCall,
+         .step, .cursorRecv, .input (.csi [] [[4], [9]] (ch 'R')), .step] with
+     | some s => s.pend == [] && s.queue == [] && s.cursorGot == [(3, 7)] && s.cursorCh == [(4, 9)] && !s.vs.reqCursorPos
+     | none => false) = true := by decide
+
 theorem send_kinds_safe : Kinds.safe Kinds.ofGen := by
   rw [send_kinds]; simp [Kinds.safe]
 
